@@ -772,9 +772,9 @@ func (x *Run) enterLoopHeader(fr *Frame, from, to *ssa.BasicBlock, st *State, lp
 }
 
 type loopMod struct {
-	cells map[*Cell]bool
-	arrs  map[string]bool
-	top   bool
+	cells     map[*Cell]bool
+	arrs      map[string]bool
+	top       bool
 	preserves []string
 }
 
